@@ -139,6 +139,19 @@ class InfoEngine(TailEngine):
         return out
 
 
+def returned_names(tail):
+    """(name of the list of transition times, name of the list of infos): the two names of the final `return a, b`"""
+    last = tail[-1] if tail else None
+    if isinstance(last, ast.Return) and isinstance(last.value, ast.Tuple) and len(last.value.elts) == 2 and all(isinstance(x, ast.Name) for x in last.value.elts):
+        return last.value.elts[0].id, last.value.elts[1].id
+    raise E.Undecided("get_transitions does not end with `return <times>, <infos>`")
+
+
+def appends_to(loop, name):
+    return any(isinstance(n, ast.Call) and isinstance(n.func, ast.Attribute) and n.func.attr == "append" and isinstance(n.func.value, ast.Name)
+               and n.func.value.id == name for n in ast.walk(loop))
+
+
 def tail_statements(node):
     """the statements of get_transitions after the loop that collects the transitions"""
     body = source.strip_docstring(node.body)
@@ -191,14 +204,24 @@ def order_obligations(rep, tier):
     st.ghost["transitions_addr"] = addr
     st.env = {"self": E.VRef(z3.Const("self", E.Ref)), "transitions": E.VList(addr)}
     obs = []
-    # run: sort; transition_times = [...]
+    # run: sort; <times> = [...]   (or: <times> = []; for ... in enumerate(transitions): <times>.append(...))
+    try:
+        times_name, info_name = returned_names(tail)
+    except E.Undecided as u:
+        return [ob_from(f"{PID}.G.get_transitions", fn, lines, UNDECIDED, str(u))]
     stmts = []
+    by_loop = None
     for s_ in tail:
+        if isinstance(s_, ast.For) and appends_to(s_, times_name):
+            by_loop = s_
+            break
         stmts.append(s_)
-        if isinstance(s_, ast.Assign) and ast.unparse(s_.targets[0]) == "transition_times":
+        if isinstance(s_, ast.Assign) and ast.unparse(s_.targets[0]) == times_name and not (isinstance(s_.value, ast.List) and not s_.value.elts):
             break
     else:
-        return [ob_from(f"{PID}.G.get_transitions", fn, lines, UNDECIDED, "`transition_times = ...` not found after the collection loop")]
+        return [ob_from(f"{PID}.G.get_transitions", fn, lines, UNDECIDED, f"`{times_name} = ...` not found after the collection loop")]
+    if by_loop is not None:
+        return onsets_by_loop(rep, tier, node, tail, lat, eng, st, stmts, by_loop, times_name) + info_obligations(rep, tier, node, tail, lat)
     try:
         results = eng.exec_block(stmts, st)
     except E.Undecided as u:
@@ -213,7 +236,7 @@ def order_obligations(rep, tier):
             o2.status, o2.detail = o1.status, o1.detail
             continue
         n_paths += 1
-        tt = s.env.get("transition_times")
+        tt = s.env.get(times_name)
         segs = eng.segments_of(tt, s) if tt is not None else None
         if not segs or len(segs) != 1 or segs[0][0] != "range":
             o1.status, o1.detail = UNDECIDED, "transition_times is not a single comprehension over the transitions"
@@ -240,6 +263,80 @@ def order_obligations(rep, tier):
     return [o1, o2] + info_obligations(rep, tier, node, tail, lat)
 
 
+def onsets_by_loop(rep, tier, node, tail, lat, eng0, st0, prefix, loop, times_name):
+    """<times> built by `for num, (...) in enumerate(transitions): <times>.append(e)`: one generic iteration after the sort"""
+    fn = "cal:Timezone.get_transitions"
+    T = TIMEOUT_MS[tier]
+    lines = source.lines_of(node)
+    o1 = Obligation(f"{PID}.G.onsets_are_local_time_minus_TZOFFSETFROM", fn, "z3", PROVED, lines=lines)
+    o2 = Obligation(f"{PID}.G.transition_times_ascending", fn, "z3", PROVED, lines=lines)
+    try:
+        pre = eng0.exec_block(prefix, st0)               # the sort (its ordering fact lands in the state)
+    except E.Undecided as u:
+        o1.status = o2.status = UNDECIDED
+        o1.detail = o2.detail = f"outside subset: {u}"
+        return [o1, o2]
+    addr = st0.ghost.get("transitions_addr")
+
+    def getitem(engine, s, c, key):
+        c = engine.unbox_known(c, s)
+        if isinstance(c, E.VList) and c.addr == addr:
+            return [(s, engine.elem(engine.unbox_known(key, s).z))]
+        if isinstance(c, E.VTuple):
+            kz = z3.simplify(key.z)
+            if z3.is_int_value(kz):
+                return [(s, c.items[kz.as_long()])]
+        raise E.Undecided("subscript")
+    eng0.contracts["op:getitem"] = getitem
+    n = 0
+    for s_pre, sig in pre:
+        if sig is not None:
+            continue
+        for which in ("first", "later"):
+            s = s_pre.fork()
+            k = E.fresh("num", E.I)
+            s.assume(N >= 1, k == 0) if which == "first" else s.assume(N >= 2, 1 <= k, k < N)
+            acc = s.alloc(E.ListObj([]))
+            s.env = dict(s.env)
+            s.env[times_name] = E.VList(acc)
+            try:
+                results = []
+                for s1, sg in eng0.assign(loop.target, E.VTuple([E.VInt(k), eng0.elem(k)]), s):
+                    if sg is not None:
+                        raise E.Undecided("the loop target does not fit (index, transition)")
+                    results += eng0.exec_block(loop.body, s1)
+            except E.Undecided as u:
+                o1.status = o2.status = UNDECIDED
+                o1.detail = o2.detail = f"outside subset: {u}"
+                return [o1, o2]
+            for s2, sg2 in results:
+                items = s2.heap[acc].items
+                n += 1
+                if sg2 is not None or len(items) != 1:
+                    status, secs, info = check_vc(eng0.axioms, [*s2.pc, *s2.qpc], z3.BoolVal(False), T)
+                    compare.fold_status(o1, status, secs, info, "the iteration does not append exactly one time")
+                    continue
+                r = eng0.box(items[0], s2)
+                status, secs, info = check_vc(eng0.axioms, [*s2.pc, *s2.qpc], dtc.inst(r) == dtc.inst(T2(k)) - F2(k), T)
+                compare.fold_status(o1, status, secs, info, f"{which} transition time")
+    o1.detail = o1.detail or f"{n} paths of one generic iteration of the loop that builds {times_name}"
+    if o1.status == PROVED:
+        o2.detail = "follows from the sort key and the onsets obligation (times[k] = local[k] - TZOFFSETFROM[k], sorted by exactly that)"
+        # the same z3 step as in the comprehension form: neighbouring keys are ordered
+        kk = E.fresh("k", E.I)
+        for s_pre, sig in pre:
+            if sig is None:
+                g = z3.Implies(z3.And(0 <= kk, kk + 1 < N), dtc.inst(T2(kk)) - F2(kk) <= dtc.inst(T2(kk + 1)) - F2(kk + 1))
+                status, secs, info = check_vc(eng0.axioms, [*s_pre.pc, *s_pre.qpc], g, T)
+                compare.fold_status(o2, status, secs, info, "two neighbouring onsets")
+    else:
+        o2.status, o2.detail = UNDECIDED, "depends on the onsets obligation"
+    for o in (o1, o2):
+        if o.status == REFUTED:
+            o.shape_only = True
+    return [o1, o2]
+
+
 def info_obligations(rep, tier, node, tail, lat):
     """G.info: one generic iteration of `for num, (transtime, osfrom, osto, name) in enumerate(transitions)`"""
     fn = "cal:Timezone.get_transitions"
@@ -247,7 +344,11 @@ def info_obligations(rep, tier, node, tail, lat):
     lines = source.lines_of(node)
     oid1 = f"{PID}.G.every_transition_reports_its_TZOFFSETTO_and_its_own_name"
     oid2 = f"{PID}.G.a_STANDARD_transition_reports_zero_dst"
-    loops = [x for x in tail if isinstance(x, ast.For) and "enumerate(transitions)" in ast.unparse(x.iter)]
+    try:
+        times_name, info_name = returned_names(tail)
+    except E.Undecided as u:
+        return [ob_from(oid1, fn, lines, UNDECIDED, str(u)), ob_from(oid2, fn, lines, UNDECIDED, str(u))]
+    loops = [x for x in tail if isinstance(x, ast.For) and "enumerate(transitions)" in ast.unparse(x.iter) and appends_to(x, info_name)]
     if len(loops) != 1:
         return [ob_from(oid1, fn, lines, UNDECIDED, "the loop over enumerate(transitions) was not found"), ob_from(oid2, fn, lines, UNDECIDED, "loop not found")]
     loop = loops[0]
@@ -274,7 +375,7 @@ def info_obligations(rep, tier, node, tail, lat):
                 return [(s, c.items[kz.as_long()])]
         raise E.Undecided("subscript")
     eng.contracts["op:getitem"] = getitem
-    st.env = {"self": E.VRef(z3.Const("self", E.Ref)), "transitions": E.VList(addr), "transition_info": E.VList(info), "dst": E.VClass("DSTMAP")}
+    st.env = {"self": E.VRef(z3.Const("self", E.Ref)), "transitions": E.VList(addr), info_name: E.VList(info), "dst": E.VClass("DSTMAP")}
     saved_td = E.BUILTINS.get("timedelta")
     E.BUILTINS["timedelta"] = lambda e, s, a, kw: [(s, E.VTd(z3.IntVal(0)))] if not a and (not kw or all(z3.is_int_value(z3.simplify(v.z)) and z3.simplify(v.z).as_long() == 0 for v in kw.values())) else (_ for _ in ()).throw(E.Undecided("timedelta(...)"))
     st.env["timedelta"] = E.VBuiltin("timedelta")
